@@ -11,7 +11,8 @@ import subprocess
 import sys
 from pathlib import Path
 
-VERIF = Path("/verif")
+VERIF = Path(__import__("os").environ.get("VERIF_ROOT", "/verif"))  # where the checks run (a built copy while proofs are being edited)
+STORE = Path("/verif")
 
 
 def sh(cmd, cwd=None, env=None, timeout=1800):
@@ -85,7 +86,7 @@ def main():
         finally:
             sh(["git", "-C", "/repo", "worktree", "remove", "--force", scratch])
             sh(["git", "-C", "/repo", "worktree", "prune"])
-    dest = VERIF / "seeded" / (f"{pid}-{i}" if rnd == "1" else f"{pid}-r{rnd}-{i}")
+    dest = STORE / "seeded" / (f"{pid}-{i}" if rnd == "1" else f"{pid}-r{rnd}-{i}")
     if confirmed:
         dest.mkdir(parents=True, exist_ok=True)
         shutil.copy(patch, dest / "patch.diff")
